@@ -169,7 +169,9 @@ pub fn corpus(rng: &mut Rng) -> Vec<(String, Vec<u8>)> {
     let mut out = vec![];
     for (k, &(ct, depth)) in LEGAL_PAIRS.iter().enumerate() {
         for il in [false, true] {
-            let (w, h) = if il { (5, 3) } else { (3, 4) };
+            // sizes around the Adam7 special cases (passes that are empty for widths / heights 1..4)
+            let dims = [(5u32, 3u32), (2, 3), (3, 4), (1, 1), (4, 5), (2, 9), (8, 8), (1, 6), (3, 2), (9, 2)];
+            let (w, h) = dims[(k * 2 + il as usize) % dims.len()];
             let (g, _) = gen_grid(rng, ct, depth, w, h);
             let img = g.pack(il);
             let mut enc = EncOpts { level: 6, idat_parts: 1 + k % 2, empty_idat: [0u8, 1, 0, 9, 0, 6, 0, 3][k % 8], ..Default::default() };
